@@ -108,6 +108,7 @@ class _State(Enum):
 
 _EMPTY_RE = re.compile(r"\s+")
 _COUNTER_RE = re.compile(r"\d+")
+_BRACE_TAG_RE = re.compile(r"\{(/?(?:b|i|u|bold|italic|underline))\}", re.IGNORECASE)
 _TIMECODE_RE = re.compile(r"(?P<begin_h>[0-9]{2,3}):(?P<begin_m>[0-9]{2}):(?P<begin_s>[0-9]{2}),(?P<begin_ms>[0-9]{3})\s+-->\s+(?P<end_h>[0-9]{2,3}):(?P<end_m>[0-9]{2}):(?P<end_s>[0-9]{2}),(?P<end_ms>[0-9]{3})")
 _DEFAULT_REGION_ID = "r1"
 _DEFAULT_FONT_STACK = ("Verdana", "Arial", "Tiresias", styles.GenericFontFamilyType.sansSerif)
@@ -238,13 +239,8 @@ def to_model(data_file: typing.IO, _config = None, progress_callback=lambda _: N
 
       if line is None or _EMPTY_RE.fullmatch(line):
         subtitle_text = subtitle_text.strip('\r\n')\
-          .replace("\r\n", "\n")\
-          .replace(r"{bold}", r"<bold>")\
-          .replace(r"{/bold}", r"</bold>")\
-          .replace(r"{italic}", r"<italic>")\
-          .replace(r"{/italic}", r"</italic>")\
-          .replace(r"{underline}", r"<underline>")\
-          .replace(r"{/underline}", r"</underline>")
+          .replace("\r\n", "\n")
+        subtitle_text = _BRACE_TAG_RE.sub(r"<\1>", subtitle_text)
 
         parser = _TextParser(current_p, line_index)
         parser.feed(subtitle_text)
